@@ -193,6 +193,27 @@ def run(ctx):
     # (F1-F6 of C06: the require line covers every tag used, values are quoted and escaped)
     from .c06 import factory_rules
     factory_rules(ctx, R, PR)
+    # ---- B4 -----------------------------------------------------------------------
+    ctx.rule("B4", "the tree walk the readers rely on is pre-order: a `not` is directly followed by the test it wraps")
+    cmdcls = prog.cls("Command")
+    wk = cmdcls.methods.get("walk") if cmdcls is not None else None
+    if wk is None:
+        raise AnalysisError("B4", "Command.walk not found")
+    recursive = any(isinstance(c, ast.Call) and isinstance(c.func, ast.Attribute) and c.func.attr == "walk" for c in walk_no_nested(wk.node))
+    fifo = [c for c in walk_no_nested(wk.node) if isinstance(c, ast.Call) and isinstance(c.func, ast.Attribute) and (
+        (c.func.attr == "pop" and c.args and const_value(prog, wk, c.args[0]) == 0) or c.func.attr == "popleft")]
+    first_yield = next((y for y in ast.walk(wk.node) if isinstance(y, (ast.Yield, ast.YieldFrom))), None)
+    if fifo:
+        ctx.violation("B4", wk, "walk-breadth-first", "Command.walk takes the next node from the FRONT of its work list (%s): siblings come before "
+                      "descendants, so the test wrapped by a `not` no longer follows it" % norm(fifo[0])[:30], node=fifo[0],
+                      witness="[(Subject, :notcontains, x), (exists, A)] reads back as notexists A, Subject :contains x")
+    elif recursive and first_yield is not None:
+        ctx.holds("B4", "%s yields the node, then walks each sub-command recursively (pre-order)" % wk.qualname)
+    else:
+        raise AnalysisError("B4", "Command.walk: traversal order not recognised (neither recursive nor a front-popped work list)")
+    # a value memoised on a class is shared by every instance and subclass: what one action class computed answers for all (H1 of C13)
+    from .c13 import h1
+    h1(ctx, PR)
     gf = R.m["getfilter"]
     s = norm(gf.node)
     if "['enabled']" in s and ".children[0]" in s:
